@@ -27,7 +27,9 @@ def run_case(ctx, f, batch0, keys, fail, same_a=False):
     ev = Obj("event_param", _autotrigger_value=True, _autotrigger_reset_value=False, _mode="set-reset")
     # a second Event parameter that is never among the keys given: update must not touch it
     ev2 = Obj("other_event_param", _autotrigger_value=True, _autotrigger_reset_value=False, _mode="set-reset")
-    pa, pb = Obj("param_a"), Obj("param_b")
+    pa, pb = Obj("param_a", watchers={}), Obj("param_b", watchers={})
+    ev.attrs["watchers"] = {}
+    ev2.attrs["watchers"] = {}
     known = {"a": pa, "b": pb, "e": ev, "e2": ev2}
     prev = {"a": Obj("old_a"), "b": Obj("old_b"), "e": False, "e2": False}
     given = dict((k, Obj("new_" + k) if k != "e" else True) for k in keys)
@@ -37,7 +39,7 @@ def run_case(ctx, f, batch0, keys, fail, same_a=False):
         given = dict((("zzz" if k == fail[1] else k), v) for k, v in given.items())
     target = Obj("target")
     trace = []
-    ns = Obj("ns", _BATCH_WATCH=batch0, self_or_cls=target, cls=Obj("Cls", __name__="Cls"),
+    ns = Obj("ns", _BATCH_WATCH=batch0, _TRIGGER=False, self_or_cls=target, cls=Obj("Cls", __name__="Cls"),
              __getitem__=dict(known), __contains__=list(known), __iter__=list(known))
     # the instance route: the namespace of an instance nobody watches
     target.attrs["_param__private"] = Obj("private", watchers={}, values=dict(prev))
@@ -106,7 +108,7 @@ def cow_case(ctx, f, keys, fail):
 
 def update_model(ctx):
     f = ctx.repo.func(P + "Parameters._update")
-    problems = {"C04": [], "C05": [], "C02": [], "C03": [], "C01": [], "C09": []}
+    problems = {"C04": [], "C05": [], "C02": [], "C03": [], "C01": [], "C09": [], "C10": [], "C08": []}
     n = 0
     orders = [["a"], ["a", "b"], ["a", "e"], ["e", "a"], ["a", "e", "b"], ["b", "a", "e"]]
     for batch0 in (False, True):
@@ -147,6 +149,11 @@ def update_model(ctx):
                 main_sets = [t for t in sets if not (t[1] == "e" and t[3] == "mode=reset")]
                 if [t[1] for t in main_sets] != [name_of(k) for k in upto]:
                     problems["C02"].append("%s: keys assigned %s, specification %s" % (desc, [t[1] for t in main_sets], [name_of(k) for k in upto]))
+                    if same_a and "a" not in [t[1] for t in main_sets]:
+                        msg = ("%s: the key never reaches the setter -- the assignment is what ends the parameter's link and cancels its pending asynchronous reference: the superseded "
+                               "coroutine result lands after the plain value, and the old source keeps driving the parameter" % desc)
+                        problems["C10"].append(msg)
+                        problems["C08"].append(msg)
                     if [x for x in upto if name_of(x) not in [t[1] for t in main_sets]]:
                         problems["C01"].append("%s: the value given for %s never reaches the validating setter (an equal-comparing value of the wrong type, or one that the "
                                                "constraints no longer admit, is accepted on this route only)" % (desc, [x for x in upto if name_of(x) not in [t[1] for t in main_sets]]))
